@@ -352,6 +352,7 @@ namespace options
         // a given user_input might match more than one toggle, e.g., -ab matches a and b.
         // Therefore, we need to keep checking all toggles, even after one match.
         auto match_found = false;
+        std::size_t matched_letters = 0;
 
         for (auto& option : get_all_toggles())
         {
@@ -359,7 +360,17 @@ namespace options
             {
                 option.second->update_value(in);
                 match_found = true;
+
+                if (in.is_short() && option.second->has_short_name())
+                {
+                    matched_letters += in.as_short_list().count(option.second->short_name());
+                }
             }
+        }
+
+        if (match_found && in.is_short() && matched_letters != in.as_short_list().size())
+        {
+            raise<parsing_error>("Argument '", in.data(), "' contains an unknown short option.");
         }
 
         return match_found;
